@@ -18,7 +18,7 @@ import (
 
 func c12Config() world.Config {
 	return world.Config{
-		Accounts: []string{"F", "U1", "U2"},
+		Accounts: []string{"F", "U1", "U2", "U3"},
 		Balances: map[string]sdk.Coins{"F": sdk.NewCoins(sdk.NewCoin("ujkl", sdk.NewIntWithDecimal(1, 20)), sdk.NewCoin("uatom", sdk.NewIntWithDecimal(1, 20)))},
 		Storage:  func(p *storagetypes.Params) { p.CheckWindow = 2 },
 	}
@@ -109,6 +109,10 @@ func c12Track(acc sdk.AccAddress, start, end time.Time, dep sdk.Coins) *c12Gauge
 // c12ModuleRun: gauges created through the keeper's NewGauge + a bank deposit, reward blocks through the storage
 // module's own BeginBlocker at exactly the chosen times.
 func c12ModuleRun(env world.Env, amount int64, twoDenoms bool, D time.Duration, nGauges int, seq []int) mc.CaseResult {
+	equal := nGauges < 0 // -n: n gauges with identical parameters created in the same block
+	if equal {
+		nGauges = -nGauges
+	}
 	w := env.W()
 	k := w.App.StorageKeeper
 	ctx := env.Ctx()
@@ -116,17 +120,30 @@ func c12ModuleRun(env world.Env, amount int64, twoDenoms bool, D time.Duration, 
 	start := ctx.BlockTime()
 	var gs []*c12Gauge
 	for i := 0; i < nGauges; i++ {
-		coins := sdk.NewCoins(sdk.NewInt64Coin("ujkl", amount+int64(i)))
+		j := int64(i)
+		if equal {
+			j = 0
+		}
+		coins := sdk.NewCoins(sdk.NewInt64Coin("ujkl", amount+j))
 		if twoDenoms {
 			coins = coins.Add(sdk.NewInt64Coin("uatom", amount*3+1))
 		}
-		end := start.Add(D).Add(time.Duration(i) * time.Hour)
+		end := start.Add(D).Add(time.Duration(j) * time.Hour)
 		pg := k.NewGauge(ctx, coins, end)
 		acc, _ := storagetypes.GetGaugeAccount(pg)
 		if err := w.App.BankKeeper.SendCoins(ctx, w.A("F").Addr, acc, coins); err != nil {
 			panic(err)
 		}
-		gs = append(gs, c12Track(acc, start, end, coins))
+		merged := false
+		for _, g := range gs {
+			if g.acc.Equals(acc) { // a further deposit for a gauge with the same identity
+				g.deposit = g.deposit.Add(coins...)
+				merged = true
+			}
+		}
+		if !merged {
+			gs = append(gs, c12Track(acc, start, end, coins))
+		}
 	}
 	pts := c12Points(start, D)
 	h := ctx.BlockHeight()
@@ -176,7 +193,7 @@ func c12AppRun(env world.Env, sameParams bool, buyers int, seq []int) mc.CaseRes
 	}
 	var gs []*c12Gauge
 	for i := 0; i < buyers; i++ {
-		u := w.A([]string{"U1", "U2"}[i])
+		u := w.A([]string{"U1", "U2", "U3"}[i])
 		bytes := int64(1000_000_000_000)
 		if !sameParams {
 			bytes += int64(i) * 1_000_000_000
@@ -258,7 +275,7 @@ func c12EnumModule(thorough bool) mc.Enum {
 	for _, amt := range amounts {
 		for _, D := range durs {
 			for _, two := range []bool{false, true} {
-				for _, n := range []int{1, 3} {
+				for _, n := range []int{1, 3, -2, -3} {
 					amt, D, two, n := amt, D, two, n
 					e.Cases = append(e.Cases, mc.Case{Desc: fmt.Sprintf("module|amount=%d|D=%s|twoDenoms=%v|gauges=%d|%d sequences of <=%d reward times", amt, D, two, n, len(seqs), maxLen), Run: func(env world.Env) mc.CaseResult {
 						out := mc.CaseResult{Class: "module"}
@@ -294,7 +311,7 @@ func c12EnumApp(thorough bool) mc.Enum {
 		for _, v := range []struct {
 			same   bool
 			buyers int
-		}{{false, 1}, {false, 2}, {true, 2}} {
+		}{{false, 1}, {false, 2}, {true, 2}, {true, 3}} {
 			seq, v := seq, v
 			e.Cases = append(e.Cases, mc.Case{Desc: fmt.Sprintf("app|buyers=%d|sameParams=%v|times=%s", v.buyers, v.same, seqDesc(seq)), Run: func(env world.Env) mc.CaseResult {
 				return c12AppRun(env, v.same, v.buyers, seq)
